@@ -192,8 +192,19 @@ func Run(w *World, cfg RunCfg) (*Outcome, error) {
 		}
 		return DumpPod(p)
 	}
+	poolKeys := map[string][]string{}
+	for _, np := range w.Pools {
+		ks := sets.New[string]()
+		for _, r := range np.Spec.Template.Spec.Requirements {
+			ks.Insert(r.Key)
+		}
+		for k := range np.Spec.Template.Labels {
+			ks.Insert(k)
+		}
+		poolKeys[np.Name] = sets.List(ks)
+	}
 	for _, nc := range results.NewNodeClaims {
-		cd := ClaimDump{Pool: nc.NodePoolName, Hostname: nc.VerifC01Hostname(), Taints: DumpTaints(nc.Spec.Taints), Requests: Milli(nc.Spec.Resources.Requests)}
+		cd := ClaimDump{PoolKeys: poolKeys[nc.NodePoolName], Pool: nc.NodePoolName, Hostname: nc.VerifC01Hostname(), Taints: DumpTaints(nc.Spec.Taints), Requests: Milli(nc.Spec.Resources.Requests)}
 		reqs := DumpReqs(nc.Requirements)
 		reqs = append(reqs, Req{Key: corev1.LabelHostname, Vals: []string{cd.Hostname}})
 		sort.Slice(reqs, func(i, j int) bool { return reqs[i].Key < reqs[j].Key })
